@@ -47,6 +47,12 @@ def render_fraction(rng, v: F) -> str:
     return f"{v.numerator} / {d}"
 
 
+def _l10(x):
+    import math
+    x = abs(x)
+    return abs(math.log10(x.numerator) - math.log10(x.denominator)) if x else 0.0
+
+
 class Gen:
     def __init__(self, rng: random.Random, n_dims=None, n_units=None, n_prefixes=None,
                  offsets=1, logs=0, collide=False, neg_rate=0.05):
@@ -183,11 +189,15 @@ class Gen:
         neg = self.rng.random() < self.neg_rate
         if neg:
             factor, txt = -factor, "-" + txt
+        stress = _l10(scale)
         for p in parts:
             e = self.rng.choice((-2, -1, 1, 1, 2, 3))
             sp, pf = self.ref_spelling(p)
             t = self.units[p]
             factor *= (pf * t["factor"]) ** e
+            # how far a running float product of scale ** exponent over every leaf of the
+            # definition chain can wander from 1 (see DESIGN 8.3: float range)
+            stress += abs(e) * (_l10(pf) + t.get("stress", 0.0))
             for k, v in t["root"].items():
                 root[k] = root.get(k, 0) + v * e
             for k, v in t["dims"].items():
@@ -198,7 +208,7 @@ class Gen:
         dims = {k: v for k, v in dims.items() if v}
         self.lines_unit.append(f"{name} = {txt}{self._tail(sym, al)}")
         self._register(name, sym, al, dict(factor=factor, root=root, dims=dims, kind="mult",
-                                            is_base=False))
+                                            is_base=False, stress=stress))
 
     def _offset(self):
         mult = [c for c, t in self.units.items() if t["kind"] in ("base", "mult")
@@ -216,7 +226,8 @@ class Gen:
             f"{render_fraction(self.rng, off)}{self._tail(sym, al)}")
         self._register(name, sym, al, dict(factor=scale * t["factor"], root=dict(t["root"]),
                                             dims=dict(t["dims"]), kind="offset", is_base=False,
-                                            scale=scale, offset=off, ref=ref))
+                                            scale=scale, offset=off, ref=ref,
+                                            stress=_l10(scale) + t.get("stress", 0.0)))
 
     # ------------------------------------------------------------------
     def text(self, rng=None, shuffle=False, layout=0) -> str:
